@@ -87,6 +87,7 @@ class RefEval:
         # every intermediate happens to be exact (used when the SAME value is recomputed in another
         # association order, e.g. after constants were consolidated)
         self.keep_eps = keep_eps
+        self.exp_limit = 250.0 if hi <= 1e100 else (math.log(hi) if hi < math.inf else 700.0)
         self.memo = {}
         self.keep = []
         self.first_bad = None     # (model node, reason) of the first decided domain violation
@@ -247,7 +248,7 @@ class RefEval:
             v = a.v / b.v
             q = a.q / b.q if (a.q is not None and b.q is not None) else None
             bb = float(abs(b.v)) - b.eps
-            eps = a.eps / bb + float(abs(a.v)) / (bb * bb) * b.eps + U * float(abs(v))
+            eps = a.eps / bb + (float(abs(a.v)) / bb) / bb * b.eps + U * float(abs(v))
             return self._finish(m, v, q, eps)
 
         if t == "Reciprocal":
@@ -258,7 +259,7 @@ class RefEval:
             v = 1 / a.v
             q = 1 / a.q if a.q is not None else None
             aa = float(abs(a.v)) - a.eps
-            return self._finish(m, v, q, a.eps / (aa * aa) + U * float(abs(v)))
+            return self._finish(m, v, q, (a.eps / aa) / aa + U * float(abs(v)))
 
         if t == "NthPower":
             a = kids[0]
@@ -310,7 +311,7 @@ class RefEval:
                 return self._finish(m, mpf(1), Fraction(1), 0.0)
             # magnitude guard before exponentiating something silly
             ln_b = mpmath.log(b)
-            if abs(a.v * ln_b) > 250:
+            if abs(a.v * ln_b) > self.exp_limit:
                 return R(RANGE, why=("exponential", M.text(m)[:80]))
             v = mpmath.exp(a.v * ln_b)
             if bq is not None and a.q is not None and a.q.denominator == 1 and abs(a.q) <= 1100:
@@ -375,7 +376,7 @@ class RefEval:
                     return R(UNDECIDED, why=("power base near zero", m[0]))
                 self.near.append((m, float(a.v)))
             ln_a = mpmath.log(a.v)
-            if abs(b.v * ln_a) > 250:
+            if abs(b.v * ln_a) > self.exp_limit:
                 return R(RANGE, why=("power", M.text(m)[:80]))
             if a.q is not None and a.q == 1:
                 return self._finish(m, mpf(1), Fraction(1), 0.0)
